@@ -211,6 +211,7 @@ def to_ops(trace):
         if k in ("rcvd", "sent"): ops.append([k, e["n"]])
         elif k in ("balance", "grant", "abort", "wait"): ops.append([k])
         elif k == "seg": ops.append([k, e["case"]])
+        elif k == "noop": ops.append(["seg", 1])
         elif k == "panic": ops.append(e["op"])
     return ops
 
